@@ -166,6 +166,7 @@ func (g *GoChannel) sendMessage(topic string, message *message.Message) (<-chan 
 	}
 
 	go func(subscribers []*subscriber) {
+		verifhook.At("gochannel.publish.fanout_start", message.UUID)
 		wg := &sync.WaitGroup{}
 
 		for i := range subscribers {
